@@ -101,6 +101,9 @@ func leafText(v any) (string, bool) {
 }
 
 func opInRange(op stackage.Operator) bool {
+	if p, ok := op.(*stackage.ComparisonOperator); ok && p != nil {
+		op = *p // the built-in operator type held by reference is the built-in operator type
+	}
 	if co, ok := op.(stackage.ComparisonOperator); ok {
 		return 1 <= int(co) && int(co) <= 6
 	}
